@@ -276,6 +276,189 @@ theorem getTrace_spec (g : Geo) (cfg : Cfg) (st : St) (h : Inv g st) (rid : Nat)
             exact hp
           · exact s2.lru c hc'
 
+end Cache
+end Sgz
+
+namespace Sgz
+namespace Cache
+
+theorem stackGo_spec (g : Geo) (cfg : Cfg) (rid : Nat) (a b : Int) (rest : List Int) :
+    ∀ (st : St), Inv g st → ∀ (rows : List (Nat → Nat)) (fs fs' : List (Nat × Nat)),
+      Inv g (stackTraces.go g cfg rid a b st rest rows fs).1
+      ∧ (stackTraces.go g cfg rid a b st rest rows fs).2.map (·.1)
+          = (Reader.stackTraces.go g a b rest rows fs').map (·.1) := by
+  induction rest with
+  | nil => intro st h rows fs fs'; exact ⟨h, rfl⟩
+  | cons t ts ih =>
+    intro st h rows fs fs'
+    unfold stackTraces.go Reader.stackTraces.go
+    obtain ⟨s1, s2⟩ := getTrace_spec g cfg st h rid t a b
+    generalize getTrace g cfg st rid t a b = x at s1 s2 ⊢
+    obtain ⟨st', r⟩ := x
+    cases r with
+    | error e =>
+      have := arrOf_error _ e s1.symm
+      simp only at this ⊢
+      rw [this]; exact ⟨s2, rfl⟩
+    | ok o =>
+      obtain ⟨fsp, hp⟩ := arrOf_ok _ o.arr s1.symm
+      simp only at hp s2 ⊢
+      rw [hp]
+      cases ho : o.arr with
+      | a1 n f => exact ih st' s2 (f :: rows) _ _
+      | a2 n m f => exact ⟨s2, rfl⟩
+      | a3 n m k f => exact ⟨s2, rfl⟩
+
+theorem stackTraces_spec (g : Geo) (cfg : Cfg) (st : St) (h : Inv g st) (rid : Nat) (idxs : List Int) (a b : Int) :
+    arrOf (stackTraces g cfg st rid idxs a b).2 = arrOf (Reader.stackTraces g idxs a b)
+    ∧ Inv g (stackTraces g cfg st rid idxs a b).1 := by
+  unfold stackTraces Reader.stackTraces
+  obtain ⟨i1, i2⟩ := stackGo_spec g cfg rid a b idxs st h [] [] []
+  generalize stackTraces.go g cfg rid a b st idxs [] [] = x at i1 i2 ⊢
+  generalize Reader.stackTraces.go g a b idxs [] [] = y at i2 ⊢
+  obtain ⟨st', r⟩ := x
+  cases r with
+  | error e =>
+    cases y with
+    | error e' => simp [Except.map] at i2; subst i2; exact ⟨rfl, i1⟩
+    | ok p => simp [Except.map] at i2
+  | ok p =>
+    cases y with
+    | error e' => simp [Except.map] at i2
+    | ok p' =>
+      obtain ⟨rows, fs⟩ := p
+      obtain ⟨rows', fs'⟩ := p'
+      simp [Except.map] at i2
+      subst i2
+      exact ⟨rfl, i1⟩
+
+end Cache
+end Sgz
+
+namespace Sgz
+namespace Cache
+
+theorem reader_cd_form (g : Geo) (cd : Int) (rng win : Option (Int × Int)) :
+    Reader.readCorrelatedDiagonal g cd rng win =
+      (if g.is2d then .error .dim else
+       if !(-(g.n1 : Int) < cd && cd < g.n0) then .error .index else
+       match diagArgs g (Reader.cdLen cd g.n0 g.n1) rng win with
+       | .error e => .error e
+       | .ok ((lo, hi), (s, e)) =>
+         Reader.stackTraces g (((List.range (hi - lo).toNat).map fun (d : Nat) => lo + (d : Int)).map
+           fun d => if cd ≥ 0 then (d + cd) * g.n1 + d else d * g.n1 + d - cd) s e) := by
+  unfold Reader.readCorrelatedDiagonal diagArgs
+  by_cases h2 : g.is2d = true
+  · simp [h2]
+  · simp only [h2, Bool.false_eq_true, if_false]
+    split
+    · rfl
+    · have W : ∀ (s e : Int) (X : Int × Int),
+          (match (if Reader.windowOk g s e = true then (Except.ok (s, e) : Except Err (Int × Int)) else Except.error Err.index) with
+            | .error er => (Except.error er : Except Err ((Int × Int) × (Int × Int)))
+            | .ok w => .ok (X, w))
+          = (if Reader.windowOk g s e = true then .ok (X, (s, e)) else .error .index) := by
+        intro s e X; by_cases hw : Reader.windowOk g s e = true <;> simp [hw]
+      cases rng with
+      | none =>
+        cases win with
+        | none => rfl
+        | some w =>
+          obtain ⟨s, e⟩ := w
+          by_cases hw : Reader.windowOk g s e = true <;> simp [hw]
+      | some r =>
+        obtain ⟨lo, hi⟩ := r
+        by_cases g1 : (!(decide (0 ≤ lo) && decide (lo < Reader.cdLen cd g.n0 g.n1))) = true
+        · simp [g1]
+        · by_cases g2 : (!(decide (0 < hi) && decide (hi ≤ Reader.cdLen cd g.n0 g.n1))) = true
+          · simp [g1, g2]
+          · by_cases g3 : (!decide (lo < hi)) = true
+            · simp [g1, g2, g3]
+            · cases win with
+              | none => simp [g1, g2, g3]
+              | some w =>
+                obtain ⟨s, e⟩ := w
+                by_cases hw : Reader.windowOk g s e = true <;> simp [g1, g2, g3, hw]
+
+theorem reader_ad_form (g : Geo) (ad : Int) (rng win : Option (Int × Int)) :
+    Reader.readAnticorrelatedDiagonal g ad rng win =
+      (if g.is2d then .error .dim else
+       if !(0 ≤ ad && ad < (g.n0 : Int) + g.n1 - 1) then .error .index else
+       match diagArgs g (Reader.adLen ad g.n0 g.n1) rng win with
+       | .error e => .error e
+       | .ok ((lo, hi), (s, e)) =>
+         Reader.stackTraces g (((List.range (hi - lo).toNat).map fun (d : Nat) => lo + (d : Int)).map
+           fun d => if ad < g.n1 then ad + d * ((g.n1 : Int) - 1)
+                    else (ad - g.n1 + 1 + d) * g.n1 + ((g.n1 : Int) - d - 1)) s e) := by
+  unfold Reader.readAnticorrelatedDiagonal diagArgs
+  by_cases h2 : g.is2d = true
+  · simp [h2]
+  · simp only [h2, Bool.false_eq_true, if_false]
+    split
+    · rfl
+    · have W : ∀ (s e : Int) (X : Int × Int),
+          (match (if Reader.windowOk g s e = true then (Except.ok (s, e) : Except Err (Int × Int)) else Except.error Err.index) with
+            | .error er => (Except.error er : Except Err ((Int × Int) × (Int × Int)))
+            | .ok w => .ok (X, w))
+          = (if Reader.windowOk g s e = true then .ok (X, (s, e)) else .error .index) := by
+        intro s e X; by_cases hw : Reader.windowOk g s e = true <;> simp [hw]
+      cases rng with
+      | none =>
+        cases win with
+        | none => rfl
+        | some w =>
+          obtain ⟨s, e⟩ := w
+          by_cases hw : Reader.windowOk g s e = true <;> simp [hw]
+      | some r =>
+        obtain ⟨lo, hi⟩ := r
+        by_cases g1 : (!(decide (0 ≤ lo) && decide (lo < Reader.adLen ad g.n0 g.n1))) = true
+        · simp [g1]
+        · by_cases g2 : (!(decide (0 < hi) && decide (hi ≤ Reader.adLen ad g.n0 g.n1))) = true
+          · simp [g1, g2]
+          · by_cases g3 : (!decide (lo < hi)) = true
+            · simp [g1, g2, g3]
+            · cases win with
+              | none => simp [g1, g2, g3]
+              | some w =>
+                obtain ⟨s, e⟩ := w
+                by_cases hw : Reader.windowOk g s e = true <;> simp [g1, g2, g3, hw]
+
+theorem readCorrelatedDiagonal_spec (g : Geo) (cfg : Cfg) (st : St) (h : Inv g st) (rid : Nat) (cd : Int)
+    (rng win : Option (Int × Int)) :
+    arrOf (readCorrelatedDiagonal g cfg st rid cd rng win).2 = arrOf (Reader.readCorrelatedDiagonal g cd rng win)
+    ∧ Inv g (readCorrelatedDiagonal g cfg st rid cd rng win).1 := by
+  rw [reader_cd_form]
+  unfold readCorrelatedDiagonal
+  by_cases h2 : g.is2d = true
+  · rw [if_pos h2, if_pos h2]; exact ⟨rfl, h⟩
+  rw [if_neg h2, if_neg h2]
+  by_cases c0 : (!(decide (-(g.n1 : Int) < cd) && decide (cd < (g.n0 : Int)))) = true
+  · rw [if_pos c0, if_pos c0]; exact ⟨rfl, h⟩
+  rw [if_neg c0, if_neg c0]
+  cases hd : diagArgs g (Reader.cdLen cd g.n0 g.n1) rng win with
+  | error e => exact ⟨rfl, h⟩
+  | ok p =>
+    obtain ⟨⟨lo, hi⟩, ⟨s, e⟩⟩ := p
+    exact stackTraces_spec g cfg st h rid _ s e
+
+theorem readAnticorrelatedDiagonal_spec (g : Geo) (cfg : Cfg) (st : St) (h : Inv g st) (rid : Nat) (ad : Int)
+    (rng win : Option (Int × Int)) :
+    arrOf (readAnticorrelatedDiagonal g cfg st rid ad rng win).2 = arrOf (Reader.readAnticorrelatedDiagonal g ad rng win)
+    ∧ Inv g (readAnticorrelatedDiagonal g cfg st rid ad rng win).1 := by
+  rw [reader_ad_form]
+  unfold readAnticorrelatedDiagonal
+  by_cases h2 : g.is2d = true
+  · rw [if_pos h2, if_pos h2]; exact ⟨rfl, h⟩
+  rw [if_neg h2, if_neg h2]
+  by_cases c0 : (!(decide (0 ≤ ad) && decide (ad < (g.n0 : Int) + g.n1 - 1))) = true
+  · rw [if_pos c0, if_pos c0]; exact ⟨rfl, h⟩
+  rw [if_neg c0, if_neg c0]
+  cases hd : diagArgs g (Reader.adLen ad g.n0 g.n1) rng win with
+  | error e => exact ⟨rfl, h⟩
+  | ok p =>
+    obtain ⟨⟨lo, hi⟩, ⟨s, e⟩⟩ := p
+    exact stackTraces_spec g cfg st h rid _ s e
+
 /-- one call: the array (or refusal) is that of a fresh reader, and the invariant is kept -/
 theorem step_spec (g : Geo) (cfg : Cfg) (st : St) (h : Inv g st) (rid : Nat) (op : Op) :
     (op ≠ .close → arrOf (step g cfg st rid op).2 = arrOf (pure g op)) ∧ Inv g (step g cfg st rid op).1 := by
@@ -292,6 +475,10 @@ theorem step_spec (g : Geo) (cfg : Cfg) (st : St) (h : Inv g st) (rid : Nat) (op
   | subp a b c d =>
     exact ⟨fun _ => (readSubplane_spec g cfg st h rid false a b c d).1, (readSubplane_spec g cfg st h rid false a b c d).2.1⟩
   | tr t a b => exact ⟨fun _ => (getTrace_spec g cfg st h rid t a b).1, (getTrace_spec g cfg st h rid t a b).2⟩
+  | cd c rng win => exact ⟨fun _ => (readCorrelatedDiagonal_spec g cfg st h rid c rng win).1,
+      (readCorrelatedDiagonal_spec g cfg st h rid c rng win).2⟩
+  | ad c rng win => exact ⟨fun _ => (readAnticorrelatedDiagonal_spec g cfg st h rid c rng win).1,
+      (readAnticorrelatedDiagonal_spec g cfg st h rid c rng win).2⟩
   | close =>
     refine ⟨fun hne => absurd rfl hne, { slots := ?_, lru := ?_ }⟩
     · intro e he; cases he
